@@ -198,6 +198,58 @@ func suiteHostileFiles(o *suiteOut, r *rng, tier string, n int) {
 	for _, l := range corpusLines("hostilefiles") {
 		hostileFileCase(o, cur, l)
 	}
+	// declared counts (StartCharMetrics, StartKernPairs, StartKernData ...) of every absurd size: a reader must not
+	// size anything from them
+	for _, cnt := range []string{"0", "-1", "1", "65536", "1000000000000", "4611686018427387904", "9223372036854775807", "9223372036854775808", "1e30", "NaN", "0x10", ""} {
+		for _, kw := range []string{"StartCharMetrics", "StartKernPairs", "StartKernData", "StartComposites", "StartTrackKern", "StartFontMetrics"} {
+			text := "StartFontMetrics 4.1\nFontName T\nStartCharMetrics 1\nC 65 ; WX 500 ; N A ; B 0 0 10 10 ;\nEndCharMetrics\nStartKernData\nStartKernPairs 1\nKPX A A -20\nEndKernPairs\nEndKernData\nEndFontMetrics\n"
+			if kw == "StartComposites" || kw == "StartTrackKern" {
+				text = strings.Replace(text, "StartKernData\n", "StartKernData\n"+kw+" "+cnt+"\n", 1)
+			} else {
+				i := strings.Index(text, kw)
+				j := i + strings.Index(text[i:], "\n")
+				text = text[:i] + kw + " " + cnt + text[j:]
+			}
+			line := fmt.Sprintf("hostilefile afmcount %s %s", kw, hx([]byte(cnt)))
+			hostileCall(o, cur, line, "AFM with declared count "+cnt, func() {
+				m, err := afm.Read(strings.NewReader(text))
+				if err == nil && m != nil {
+					m.Write(io.Discard)
+				}
+			})
+			afmrwLine(o, []byte(text))
+			o.count("AFM declared counts")
+		}
+	}
+	// CMap blocks whose operands are self-referential objects (an operator that prints or copies the offending
+	// value recursively never returns)
+	for _, blk := range []string{"cidchar", "cidrange", "bfchar", "bfrange", "notdefchar", "notdefrange", "codespacerange"} {
+		for _, cyc := range []string{"/A [0] def A 0 A put A", "/P {0} def P 0 P put P", "/D 1 dict def D /self D put D", "/A [0 0] def A 0 A put A 1 A put A"} {
+			for pos := 0; pos < 3; pos++ {
+				ops := []string{"<41>", "<42>", "7"}
+				if !strings.HasSuffix(blk, "range") {
+					ops = []string{"<41>", "7"}
+				}
+				if blk == "codespacerange" {
+					ops = []string{"<00>", "<ff>"}
+				}
+				if pos >= len(ops) {
+					continue
+				}
+				ops[pos] = cyc
+				prog := "/CIDInit /ProcSet findresource begin 12 dict begin begincmap 1 begin" + blk + " " + strings.Join(ops, " ") + " end" + blk + " endcmap"
+				line := "hostilefile cmapcyc " + hx([]byte(prog))
+				hostileCall(o, cur, line, "self-referential operand of end"+blk, func() {
+					intp := postscript.NewInterpreter()
+					intp.MaxOps = 100000
+					intp.Execute(strings.NewReader(prog))
+				})
+				res, _, _ := runProgram(100000, false, []byte(prog))
+				o.emit(runCaseLine(100000, false, prog), res, true) // and against the model
+				o.count("CMap operands that contain themselves")
+			}
+		}
+	}
 	for _, depth := range []int{1, 2, 3, 8, 16, 20} {
 		hostileFileCase(o, cur, fmt.Sprintf("hostilefile t1chain %d", depth))
 		o.count("chains of composites")
